@@ -29,11 +29,13 @@
 #include "private/autogen/config.h"
 #include "hwloc.h"
 #include "private/private.h"
+#include "hwloc/diff.h"
 #include "hwv_dump.h"
 #include "hwv_load.h"
 #include <unistd.h>
 #include <signal.h>
 #include <sys/wait.h>
+#include <fcntl.h>
 
 /* ---------- small helpers ---------- */
 static void hx(FILE *f, const char *s)
@@ -112,18 +114,21 @@ static void export_cb(void *reserved, hwloc_topology_t t, hwloc_obj_t o)
   }
 }
 
+static int nd_mode;   /* HWLOC_XML_USERDATA_NOT_DECODED: the callback gets "base64:name" / "normal-anon" names and the raw element content */
 static void import_cb(hwloc_topology_t t, hwloc_obj_t o, const char *name, const void *buffer, size_t length)
 {
   struct udlist *l = o->userdata;
   unsigned ord = l ? l->n : 0;
   int b64 = udrec_get(o->gp_index, ord);
-  unsigned char *copy = malloc(length + 1);
+  size_t stored = (nd_mode && name && !strncmp(name, "base64", 6)) ? 4 * ((length + 2) / 3) : length;
+  unsigned char *copy = malloc(stored + 1);
   (void)t;
-  memcpy(copy, buffer, length); copy[length] = 0;
+  memcpy(copy, buffer, stored); copy[stored] = 0;
   printf("UI gp=%llu ty=%d name=", (unsigned long long)o->gp_index, (int)o->type); hx(stdout, name);
-  printf(" len=%lu bytes=", (unsigned long)length); hxn(stdout, buffer, length);
+  printf(" len=%lu bytes=", (unsigned long)length); hxn(stdout, buffer, stored);
   /* the API promises a NUL after the bytes */
-  printf(" nul=%d\n", ((const char *)buffer)[length] == 0);
+  printf(" nul=%d\n", ((const char *)buffer)[stored] == 0);
+  if (nd_mode) { ud_add(o, 0, name ? strdup(name) : NULL, copy, length); return; }
   if (b64 < 0) { size_t i; b64 = 0; for (i = 0; i < length; i++) { unsigned char c = copy[i]; if (!((c >= 32 && c <= 126) || c == '\t' || c == '\n' || c == '\r')) b64 = 1; } }
   ud_add(o, b64, name ? strdup(name) : NULL, copy, length);
 }
@@ -347,6 +352,33 @@ static int do_ann(hwloc_topology_t t, char *line)
       free(arr);
     }
     else return -1;
+    return 0;
+  }
+  if (!strcmp(op, "osdev") && sscanf(line, "%u %llu %4095s %8191s", &k, &v, s1, s2) == 4) {
+    /* osdev <k> <types> <subtype|-> <name|->: attributes of the k-th OS device (modulo their number) */
+    int n = hwloc_get_nbobjs_by_type(t, HWLOC_OBJ_OS_DEVICE); hwloc_obj_t o; char *st, *nm;
+    if (n <= 0) return -1;
+    o = hwloc_get_obj_by_type(t, HWLOC_OBJ_OS_DEVICE, k % (unsigned)n);
+    o->attr->osdev.types = (unsigned long)v;
+    st = unhx(s1, NULL); nm = unhx(s2, NULL);
+    if (st) { hwloc_obj_set_subtype(t, o, st); free(st); } else { free(o->subtype); o->subtype = NULL; }
+    if (nm) { free(o->name); o->name = nm; }
+    return 0;
+  }
+  if (!strcmp(op, "osdevinfo") && sscanf(line, "%u %4095s %8191s", &k, s1, s2) == 3) {
+    int n = hwloc_get_nbobjs_by_type(t, HWLOC_OBJ_OS_DEVICE); hwloc_obj_t o; char *a, *b; int r;
+    if (n <= 0) return -1;
+    o = hwloc_get_obj_by_type(t, HWLOC_OBJ_OS_DEVICE, k % (unsigned)n);
+    a = unhx(s1, NULL); b = unhx(s2, NULL); r = hwloc_obj_add_info(o, a, b); free(a); free(b); return r;
+  }
+  if (!strcmp(op, "support") && sscanf(line, "%31s %u %llu", s1, &k, &v) == 3) {
+    /* support <discovery|cpubind|membind> <byte index> <value>: a support field other than 0/1 (exported with a value attribute) */
+    const struct hwloc_topology_support *sup = hwloc_topology_get_support(t); unsigned char *base; size_t sz;
+    if (!strcmp(s1, "discovery")) { base = (unsigned char *)sup->discovery; sz = sizeof(*sup->discovery); }
+    else if (!strcmp(s1, "cpubind")) { base = (unsigned char *)sup->cpubind; sz = sizeof(*sup->cpubind); }
+    else if (!strcmp(s1, "membind")) { base = (unsigned char *)sup->membind; sz = sizeof(*sup->membind); }
+    else return -1;
+    base[k % sz] = (unsigned char)v;
     return 0;
   }
   if (!strcmp(op, "osindex") && sscanf(line, "%u %llu", &k, &v) == 2) {
@@ -611,19 +643,35 @@ static int do_export(hwloc_topology_t t, const char *mode, unsigned long xflags,
     hwloc_free_xmlbuffer(t, xb);
     return 0;
   }
+  if (!strncmp(mode, "stdio:", 6)) {
+    /* "-" = standard output: capture file descriptor 1 into the scratch file */
+    int saved, fd;
+    fflush(stdout);
+    saved = dup(1);
+    fd = open(mode + 6, O_WRONLY | O_CREAT | O_TRUNC, 0600);
+    if (fd < 0 || saved < 0) return -1;
+    dup2(fd, 1); close(fd);
+    rc = hwloc_topology_export_xml(t, "-", xflags);
+    fflush(stdout);
+    dup2(saved, 1); close(saved);
+    if (rc < 0) return rc;
+    return read_file(mode + 6, outp, lenp);
+  }
   rc = hwloc_topology_export_xml(t, mode + 5, xflags);
   if (rc < 0) return rc;
   return read_file(mode + 5, outp, lenp);
 }
 
-static void do_rt(hwloc_topology_t A, const char *mode, const char *ver)
+static void do_rt(hwloc_topology_t A, const char *mode, const char *ver, int nd)
 {
   unsigned long xflags = !strcmp(ver, "v2") ? HWLOC_TOPOLOGY_EXPORT_XML_FLAG_V2 : 0;
   char *x1 = NULL, *x2 = NULL; size_t l1 = 0, l2 = 0; int bl1 = 0, bl2 = 0, rc;
   hwloc_topology_t B = NULL;
-  int isbuf = !strcmp(mode, "buffer");
-  printf("RT mode=%s ver=%s libxml_export=%s libxml_import=%s\n", isbuf ? "buffer" : "file", ver,
-         getenv("HWLOC_LIBXML_EXPORT") ? getenv("HWLOC_LIBXML_EXPORT") : "-", getenv("HWLOC_LIBXML_IMPORT") ? getenv("HWLOC_LIBXML_IMPORT") : "-");
+  int isbuf = !strcmp(mode, "buffer"), isstdio = !strncmp(mode, "stdio:", 6);
+  int saved0 = -1;
+  printf("RT mode=%s ver=%s nd=%d libxml_export=%s libxml_import=%s libxml=%s\n", isbuf ? "buffer" : isstdio ? "stdio" : "file", ver, nd,
+         getenv("HWLOC_LIBXML_EXPORT") ? getenv("HWLOC_LIBXML_EXPORT") : "-", getenv("HWLOC_LIBXML_IMPORT") ? getenv("HWLOC_LIBXML_IMPORT") : "-",
+         getenv("HWLOC_LIBXML") ? getenv("HWLOC_LIBXML") : "-");
   dump_prefixed("A", A);
   list_extras("AX", A);
   {
@@ -648,13 +696,32 @@ static void do_rt(hwloc_topology_t A, const char *mode, const char *ver)
   hwloc_topology_set_flags(B, hwloc_topology_get_flags(A));
   hwloc_topology_set_all_types_filter(B, HWLOC_TYPE_FILTER_KEEP_ALL);
   hwloc_topology_set_userdata_import_callback(B, import_cb);
+  if (isstdio) {
+    /* "-" = standard input: a pipe when the text fits its capacity (the nolibxml reader then has to grow its buffer), else the file */
+    int pfd[2] = { -1, -1 };
+    fflush(stdout);
+    saved0 = dup(0);
+    if (l1 < 60000 && !pipe(pfd)) {
+      if (write(pfd[1], x1, l1) != (ssize_t)l1) { /* cannot happen below the pipe capacity */ }
+      close(pfd[1]); dup2(pfd[0], 0); close(pfd[0]);
+    } else {
+      int fd = open(mode + 6, O_RDONLY); dup2(fd, 0); close(fd);
+    }
+  }
+  if (nd) { setenv("HWLOC_XML_USERDATA_NOT_DECODED", "1", 1); nd_mode = 1; }
   if (isbuf) rc = hwloc_topology_set_xmlbuffer(B, x1, (int)l1);
+  else if (isstdio) rc = hwloc_topology_set_xml(B, "-");
   else rc = hwloc_topology_set_xml(B, mode + 5);
-  if (rc < 0) { printf("reload rc=%d errno=%s stage=set\nENDRT\n", rc, hwv_errno_class(errno)); hwloc_topology_destroy(B); free(x1); return; }
+  if (rc < 0) {
+    if (saved0 >= 0) { dup2(saved0, 0); close(saved0); }
+    printf("reload rc=%d errno=%s stage=set\nENDRT\n", rc, hwv_errno_class(errno)); hwloc_topology_destroy(B); free(x1); return;
+  }
   errno = 0;
   udreg_on = 1;
   rc = hwloc_topology_load(B);
   udreg_on = 0;
+  if (saved0 >= 0) { dup2(saved0, 0); close(saved0); }
+  if (nd) unsetenv("HWLOC_XML_USERDATA_NOT_DECODED");
   printf("reload rc=%d errno=%s stage=load\n", rc, rc < 0 ? hwv_errno_class(errno) : "0");
   if (rc < 0) { printf("ENDRT\n"); udreg_free_all(); hwloc_topology_destroy(B); free(x1); return; }
   free(udreg); udreg = NULL; nudreg = capudreg = 0;
@@ -677,9 +744,95 @@ static void do_rt(hwloc_topology_t A, const char *mode, const char *ver)
     putchar('\n');
   }
   printf("ENDRT\n");
+  nd_mode = 0;
   ud_free_tree(hwloc_get_root_obj(B));
   hwloc_topology_destroy(B);
   free(x1); free(x2);
+}
+
+/* ---------- topology diffs through XML files and buffers ---------- */
+static int sdiff(const char *a, const char *b) { return (a || b) && (!a || !b || strcmp(a, b)); }
+static int diff_equal(hwloc_topology_diff_t a, hwloc_topology_diff_t b)
+{
+  for (; a && b; a = a->generic.next, b = b->generic.next) {
+    if (a->generic.type != b->generic.type) return 0;
+    if (a->generic.type != HWLOC_TOPOLOGY_DIFF_OBJ_ATTR) continue;
+    if (a->obj_attr.obj_depth != b->obj_attr.obj_depth || a->obj_attr.obj_index != b->obj_attr.obj_index) return 0;
+    if (a->obj_attr.diff.generic.type != b->obj_attr.diff.generic.type) return 0;
+    if (a->obj_attr.diff.generic.type == HWLOC_TOPOLOGY_DIFF_OBJ_ATTR_SIZE) {
+      if (a->obj_attr.diff.uint64.index != b->obj_attr.diff.uint64.index || a->obj_attr.diff.uint64.oldvalue != b->obj_attr.diff.uint64.oldvalue
+          || a->obj_attr.diff.uint64.newvalue != b->obj_attr.diff.uint64.newvalue) return 0;
+    } else if (sdiff(a->obj_attr.diff.string.name, b->obj_attr.diff.string.name) || sdiff(a->obj_attr.diff.string.oldvalue, b->obj_attr.diff.string.oldvalue)
+               || sdiff(a->obj_attr.diff.string.newvalue, b->obj_attr.diff.string.newvalue)) return 0;
+  }
+  return !a && !b;
+}
+
+/* diffrt <path> <refname hex>: B = dup(A) with a renamed object, a changed info value and a changed memory size;
+   diff_build, export to a file and to a buffer, load both back, compare with the built list */
+static void do_diffrt(hwloc_topology_t A, const char *path, const char *refhex)
+{
+  hwloc_topology_t B = NULL; hwloc_topology_diff_t d = NULL, df = NULL, db = NULL; hwloc_obj_t o; int rc, n = 0;
+  char *xb = NULL, *fb = NULL, *ref = unhx(refhex, NULL), *rf = NULL, *rb = NULL; int xl = 0; size_t fl = 0; hwloc_topology_diff_t it;
+  o = hwloc_get_obj_by_type(A, HWLOC_OBJ_PU, 0);
+  if (!o->name) o->name = strdup("pu0");      /* a name on one side only is "too complex" for diff_build */
+  hwloc_topology_dup(&B, A);
+  o = hwloc_get_obj_by_type(B, HWLOC_OBJ_PU, 0);
+  free(o->name); o->name = strdup("re<na>&med \"pu\"");
+  o = hwloc_get_root_obj(B);
+  hwloc_obj_add_info(hwloc_get_root_obj(A), "K&key", "old<v>"); hwloc_obj_add_info(o, "K&key", "new\tv");
+  o = hwloc_get_obj_by_type(B, HWLOC_OBJ_NUMANODE, 0);
+  if (o) { hwloc_obj_t p; o->attr->numanode.local_memory += 4096; for (p = o; p; p = p->parent) p->total_memory += 4096; }
+  rc = hwloc_topology_diff_build(A, B, 0, &d);
+  for (it = d; it; it = it->generic.next) n++;
+  printf("DIFF build rc=%d n=%d", rc, n);
+  errno = 0; rc = hwloc_topology_diff_export_xml(d, ref, path); printf(" export_file=%d", rc);
+  rc = hwloc_topology_diff_export_xmlbuffer(d, ref, &xb, &xl); printf(" export_buffer=%d", rc);
+  if (!read_file(path, &fb, &fl)) printf(" filebuf_same=%d", xb && fl + 1 == (size_t)xl && !memcmp(fb, xb, fl)); else printf(" filebuf_same=-1");
+  rc = hwloc_topology_diff_load_xml(path, &df, &rf); printf(" load_file=%d same=%d ref=%d", rc, rc == 0 && diff_equal(d, df), rc == 0 && !sdiff(ref, rf));
+  rc = xb ? hwloc_topology_diff_load_xmlbuffer(xb, xl, &db, &rb) : -1; printf(" load_buffer=%d same=%d ref=%d", rc, rc == 0 && diff_equal(d, db), rc == 0 && !sdiff(ref, rb));
+  /* applying the reloaded diff to a copy of A gives B's name */
+  if (df) { hwloc_topology_t C2 = NULL; hwloc_topology_dup(&C2, A); rc = hwloc_topology_diff_apply(C2, df, 0);
+    printf(" apply=%d name_ok=%d", rc, !sdiff(hwloc_get_obj_by_type(C2, HWLOC_OBJ_PU, 0)->name, hwloc_get_obj_by_type(B, HWLOC_OBJ_PU, 0)->name)); hwloc_topology_destroy(C2); }
+  errno = 0; rc = hwloc_topology_diff_load_xml("/nonexistent-dir/d.xml", &it, NULL); printf(" load_missing=%d", rc);
+  putchar('\n');
+  if (xb) hwloc_free_xmlbuffer(A, xb);
+  free(fb); free(ref); free(rf); free(rb);
+  hwloc_topology_diff_destroy(d); hwloc_topology_diff_destroy(df); hwloc_topology_diff_destroy(db);
+  hwloc_topology_destroy(B);
+}
+
+/* ---------- argument checks of the export entry points ---------- */
+static void guard_cb(void *reserved, hwloc_topology_t t, hwloc_obj_t o)
+{
+  int rc; static const char bad[] = { 'a', 1, 'b', 0 };
+  if (o->parent) return;
+  errno = 0; rc = hwloc_export_obj_userdata(reserved, t, o, "n", NULL, 3); printf("G userdata-null-buffer rc=%d errno=%s\n", rc, rc < 0 ? hwv_errno_class(errno) : "0");
+  errno = 0; rc = hwloc_export_obj_userdata_base64(reserved, t, o, "n", NULL, 3); printf("G userdata-base64-null-buffer rc=%d errno=%s\n", rc, rc < 0 ? hwv_errno_class(errno) : "0");
+  errno = 0; rc = hwloc_export_obj_userdata_base64(reserved, t, o, bad, "xyz", 3); printf("G userdata-base64-invalid-name rc=%d errno=%s\n", rc, rc < 0 ? hwv_errno_class(errno) : "0");
+  errno = 0; rc = hwloc_export_obj_userdata(reserved, t, o, bad, "xyz", 3); printf("G userdata-invalid-name rc=%d errno=%s\n", rc, rc < 0 ? hwv_errno_class(errno) : "0");
+  errno = 0; rc = hwloc_export_obj_userdata(reserved, t, o, "n", bad, 3); printf("G userdata-invalid-bytes rc=%d errno=%s\n", rc, rc < 0 ? hwv_errno_class(errno) : "0");
+}
+
+static void do_guards(hwloc_topology_t t, const char *path)
+{
+  char *xb = NULL; int xl = 0, rc; hwloc_topology_t u = NULL; hwloc_obj_t root = hwloc_get_root_obj(t); void *saved = root->userdata; static int marker;
+  errno = 0; rc = hwloc_topology_export_xmlbuffer(t, &xb, &xl, 4UL); printf("G buffer-invalid-flag rc=%d errno=%s\n", rc, rc < 0 ? hwv_errno_class(errno) : "0");
+  errno = 0; rc = hwloc_topology_export_xmlbuffer(t, &xb, &xl, ~0UL); printf("G buffer-all-flags rc=%d errno=%s\n", rc, rc < 0 ? hwv_errno_class(errno) : "0");
+  errno = 0; rc = hwloc_topology_export_xml(t, path, 4UL); printf("G file-invalid-flag rc=%d errno=%s\n", rc, rc < 0 ? hwv_errno_class(errno) : "0");
+  hwloc_topology_init(&u);
+  errno = 0; rc = hwloc_topology_export_xmlbuffer(u, &xb, &xl, 0); printf("G buffer-not-loaded rc=%d errno=%s\n", rc, rc < 0 ? hwv_errno_class(errno) : "0");
+  errno = 0; rc = hwloc_topology_export_xml(u, path, 0); printf("G file-not-loaded rc=%d errno=%s\n", rc, rc < 0 ? hwv_errno_class(errno) : "0");
+  hwloc_topology_destroy(u);
+  errno = 0; rc = hwloc_topology_export_xml(t, "/nonexistent-dir/x.xml", 0); printf("G file-unwritable rc=%d\n", rc);
+  /* refused userdata calls export nothing */
+  root->userdata = &marker;
+  hwloc_topology_set_userdata_export_callback(t, guard_cb);
+  xb = NULL; rc = hwloc_topology_export_xmlbuffer(t, &xb, &xl, 0);
+  printf("G export-with-refused-userdata rc=%d has_userdata=%d\n", rc, xb && strstr(xb, "<userdata") ? 1 : 0);
+  if (xb) hwloc_free_xmlbuffer(t, xb);
+  hwloc_topology_set_userdata_export_callback(t, NULL);
+  root->userdata = saved;
 }
 
 static int run_case(FILE *in)
@@ -699,9 +852,14 @@ static int run_case(FILE *in)
       if (loaded) { errno = 0; rc = do_ann(t, line + 4); }
       printf("ann %d rc=%d\n", nann++, rc);
     } else if (!strncmp(line, "rt ", 3)) {
-      char mode[4096], ver[16];
-      if (loaded && sscanf(line + 3, "%4095s %15s", mode, ver) == 2) do_rt(t, mode, ver);
+      char mode[4096], ver[16], opt[16] = "";
+      if (loaded && sscanf(line + 3, "%4095s %15s %15s", mode, ver, opt) >= 2) do_rt(t, mode, ver, !strcmp(opt, "nd"));
       else printf("rt skipped\n");
+    } else if (!strncmp(line, "guards ", 7)) {
+      if (loaded) do_guards(t, line + 7);
+    } else if (!strncmp(line, "diffrt ", 7)) {
+      char pth[4096], rh[4096];
+      if (loaded && sscanf(line + 7, "%4095s %4095s", pth, rh) == 2) do_diffrt(t, pth, rh);
     } else {
       int r = hwv_config_line(t, line);
       if (r == 0) printf("unknown-command %s\n", line);
